@@ -1409,6 +1409,33 @@ def Q45(F, rep, R, FL, ws):
                'ObjectQueue::write enqueues its argument on each of its %d paths' % n if bad is None and n > 0 else
                'ObjectQueue::write can return without enqueuing its argument (%s): the object is never delivered' % (fmt_events(bad, limit=10) if bad else 'no path'),
                nontrivial=True)
+        # Q6: "exact end-of-stream": write() may move the declared end, but only to a value that follows the put count (m_fileSize = m_tellp,
+        # max(m_fileSize, m_tellp), ...).  An end that write() resets to something independent of the put count (the 'not declared' sentinel,
+        # a constant) is lost: the reader that drained the queue is never released at the end that was declared.
+        rep.count('Q6')
+        bad6 = None
+        n6 = 0
+        for n in flat_nodes(F, fn):
+            if _assigned_field(n) != 'm_fileSize':
+                continue
+            n6 += 1
+            rhs = n.get('rhs') if n.get('k') == 'Bin' else (n['args'][1] if n.get('k') == 'Call' and len(n.get('args', [])) > 1 else None)
+            if n.get('k') == 'Un' or (n.get('k') in ('Bin', 'Call') and n.get('op') in ('+=', '-=', '|=', '&=')):
+                bad6 = bad6 or n   # the end is not a counter of write()
+                continue
+            mentions = set()
+            if rhs is not None:
+                for x in walk(deep_resolve(rhs, fn)):
+                    mp_ = member_path(x)
+                    if mp_:
+                        mentions.add(mp_[-1])
+            if 'm_tellp' not in mentions:
+                bad6 = bad6 or n
+        rep.ob('Q6', 'write|end-follows-put', bad6 is None, rep.fn_site(fn, bad6.get('line') if bad6 else None),
+               'ObjectQueue::write moves the declared end only to the put count (%d assignment(s) to m_fileSize, each a function of m_tellp)' % n6 if bad6 is None else
+               'ObjectQueue::write assigns m_fileSize a value that does not follow the put count m_tellp (%s): after a write past the declared end '
+               'the end position is lost and the reader that drained the queue blocks instead of seeing end-of-stream' % expr_str(bad6),
+               nontrivial=True)
 
 
 def _iostate_value(F, name):
